@@ -128,6 +128,42 @@ class AugPort(Logic):
         self.o += 1
 
 
+class MatchGuard(Logic):
+    """a guarded case whose guard is false falls through to `case _` in Python; the emitted `1: if (g) ...` does not"""
+    def __init__(self, parent, name, a, b, o):
+        super().__init__(parent, name)
+        self.a = self.addIn('a', a)
+        self.b = self.addIn('b', b)
+        self.o = self.addOut('o', o)
+        self.s = 0
+
+    def clock(self):
+        match self.a.get():
+            case 1 if self.b.get() == 1:
+                self.o.prepare(5)
+            case _:
+                self.o.prepare(3)
+
+
+# ---------------------------------------------------------------- outside the subset: the transpiler must refuse
+class MatchCapture(Logic):
+    """`case other:` binds the subject to a name used in the body: nothing in Verilog does that"""
+    def __init__(self, parent, name, a, b, o):
+        super().__init__(parent, name)
+        self.a = self.addIn('a', a)
+        self.b = self.addIn('b', b)
+        self.o = self.addOut('o', o)
+        self.last = 0
+
+    def clock(self):
+        match self.a.get():
+            case 0:
+                self.o.prepare(self.b.get())
+            case other:
+                self.last = other
+                self.o.prepare(other + 1)
+
+
 # ---------------------------------------------------------------- in-subset corner blocks (must validate)
 class MatchFsm(Logic):
     def __init__(self, parent, name, a, b, o):
@@ -229,6 +265,29 @@ class NestRight(Logic):
         self.o.prepare(self.s0 ^ self.s3)
 
 
+class AugThenRead(Logic):
+    """an augmented assignment takes effect immediately: later statements of the same call see the new value"""
+    def __init__(self, parent, name, a, b, o):
+        super().__init__(parent, name)
+        self.a = self.addIn('a', a)
+        self.b = self.addIn('b', b)
+        self.o = self.addOut('o', o)
+        self.n = 0
+        self.m = 1
+
+    def clock(self):
+        self.n += self.a.get()
+        self.o.prepare(self.n)
+        if self.n > 20:
+            self.n = 0
+        self.m <<= 1
+        self.m |= self.b.get()
+        self.m &= 255
+        t = 3
+        t += self.m
+        self.m = t & 255
+
+
 class CombMux(Logic):
     def __init__(self, parent, name, a, b, o):
         super().__init__(parent, name)
@@ -245,5 +304,6 @@ class CombMux(Logic):
 
 
 FINDINGS = [('NarrowCond', (1, 1, 1)), ('NarrowShift', (8, 8, 8)), ('OrValue', (4, 4, 4)), ('TernaryComb', (4, 1, 8)),
-            ('TernarySeq', (4, 1, 8)), ('PortName', (4, 4, 5)), ('CmpRhs', (4, 1, 1)), ('MatchNoDefault', (1, 1, 1)), ('AugPort', (1, 1, 4))]
-CORNERS = [('ReadAfterPrepare', (4, 1, 4)), ('Chain3', (4, 2, 1)), ('NestRight', (8, 3, 8)), ('MatchFsm', (8, 1, 16)), ('LastWriteWins', (6, 1, 7)), ('CombMux', (5, 2, 8)), ('MatchFsm', (32, 1, 12))]
+            ('TernarySeq', (4, 1, 8)), ('PortName', (4, 4, 5)), ('CmpRhs', (4, 1, 1)), ('MatchNoDefault', (1, 1, 1)), ('AugPort', (1, 1, 4)), ('MatchGuard', (2, 1, 3))]
+REFUSED = [('MatchCapture', (3, 2, 4))]
+CORNERS = [('ReadAfterPrepare', (4, 1, 4)), ('AugThenRead', (4, 1, 8)), ('Chain3', (4, 2, 1)), ('NestRight', (8, 3, 8)), ('MatchFsm', (8, 1, 16)), ('LastWriteWins', (6, 1, 7)), ('CombMux', (5, 2, 8)), ('MatchFsm', (32, 1, 12))]
